@@ -108,6 +108,8 @@ pub struct ForgeSpec {
     /// encode the last coefficient non-canonically: 512 extra zeros in its unary run (a decoder
     /// that accumulates the run in 16 bits wraps it back to the same value); only when it fits
     pub wrap_last: bool,
+    /// make the last coefficient zero and encode it as "negative zero" (1 0000000 1)
+    pub neg_zero_last: bool,
 }
 
 /// Build (signature bytes, public-key bytes) with a prescribed squared norm: pick s2, pick s1 with
@@ -135,6 +137,9 @@ pub fn forge(f: &ForgeSpec) -> Option<(Vec<u8>, Vec<u8>)> {
             s = mix(s);
             let i = (s % n as u64) as usize;
             s2[i] = f.s2_spike;
+        }
+        if f.neg_zero_last {
+            s2[n - 1] = 0;
         }
         if codec::total_bits(&s2) <= 8 * blen && zq::evaluate_at_roots(&s2).iter().all(|&x| x != 0) {
             ok = true;
@@ -214,12 +219,13 @@ pub fn forge(f: &ForgeSpec) -> Option<(Vec<u8>, Vec<u8>)> {
     let num: Vec<i64> = c.iter().zip(s1.iter()).map(|(c, s1)| c - s1).collect();
     let h = zq::ring_div(&num, &s2)?;
     let mut body = codec::encode(&s2, blen)?;
-    if f.wrap_last && codec::total_bits(&s2) + 512 <= 8 * blen {
+    if f.neg_zero_last || (f.wrap_last && codec::total_bits(&s2) + 512 <= 8 * blen) {
         let mut bits: Vec<bool> = vec![];
         for (i, &v) in s2.iter().enumerate() {
             let m = v.unsigned_abs();
-            let extra = if i == n - 1 { 512 } else { 0 };
-            gen::Coef { neg: v < 0, low: (m & 127) as u8, high: (m >> 7) as u16 + extra }.push(&mut bits);
+            let extra = if i == n - 1 && f.wrap_last && !f.neg_zero_last { 512 } else { 0 };
+            let neg = v < 0 || (i == n - 1 && f.neg_zero_last);
+            gen::Coef { neg, low: (m & 127) as u8, high: (m >> 7) as u16 + extra }.push(&mut bits);
         }
         bits.resize(8 * blen, false);
         body = codec::pack(&bits);
@@ -329,11 +335,12 @@ impl Sub for VerifyDiff {
         let sigma = prop_oneof![1 => Just(1.0f64), 1 => Just(30.0f64), 3 => Just(165.0f64)];
         let edge = prop_oneof![5 => Just(0u8), 1 => Just(1u8), 1 => Just(2u8)];
         let spike = prop_oneof![8 => Just(0i64), 1 => prop_oneof![Just(2047i64), Just(-2047), Just(2048), Just(12159), Just(-12159), Just(6144), Just(-6145)]];
-        let wrap = prop_oneof![9 => Just(false), 1 => Just(true)];
-        let c3 = (prop_oneof![Just(512usize), Just(1024usize)], gen::message_strategy(), any::<u64>(), sigma, delta, edge, spike, wrap).prop_filter_map("forged-key construction failed (s2 not invertible / does not fit)", |(n, msg, seed, s2_sigma, delta, edge, s2_spike, wrap_last)| {
+        let wrap = prop_oneof![18 => Just(0u8), 2 => Just(1u8), 1 => Just(2u8)];
+        let c3 = (prop_oneof![Just(512usize), Just(1024usize)], gen::message_strategy(), any::<u64>(), sigma, delta, edge, spike, wrap).prop_filter_map("forged-key construction failed (s2 not invertible / does not fit)", |(n, msg, seed, s2_sigma, delta, edge, s2_spike, noncanon)| {
             // the non-canonical last coefficient needs 512 spare bits: Falcon-1024 with a short s2
+            let wrap_last = noncanon == 1;
             let (n, s2_sigma) = if wrap_last { (1024, 1.0) } else { (n, s2_sigma) };
-            let spec = ForgeSpec { n, msg: msg.clone(), seed, s2_sigma, delta, edge, s2_spike, wrap_last };
+            let spec = ForgeSpec { n, msg: msg.clone(), seed, s2_sigma, delta, edge, s2_spike, wrap_last, neg_zero_last: noncanon == 2 };
             forge(&spec).map(|(sig, pk)| VerifyCase { n, msg: Hex(msg), sig: Hex(sig), pk: Hex(pk) })
         });
         // 4. malformed / arbitrary bodies under an honest key
@@ -449,7 +456,7 @@ impl Sub for VerifyDiff {
 pub struct Unused;
 
 const META: Meta = Meta {
-    rule: "proptest triples (msg, signature bytes, public-key bytes) that both decoders accept: (1) honest signatures under native keys and under PQClean keys imported through from_bytes, signer randomness from a seeded ChaCha through the SignRng hook; (2) one-step mutations of honest triples (message bit / appended byte, salt bit, one s2 coefficient +-1/+-128 re-encoded, one public-key coefficient, another key, one body bit); (3) forged-key construction: choose s2 (Gaussian sigma 1/30/165, optional coefficient at +-2047, 2048, +-12159, 6144, -6145) and s1 with ||(s1,s2)||^2 = floor(beta^2)+delta exactly, delta in {0,+-1,+-2, small, large}, optional s1 coefficient at +-6144, and set h = (c - s1)/s2; (4) grammar-built malformed bodies under an honest key; forged Falcon-1024 triples whose last coefficient carries 512 extra unary zeros (a 16-bit accumulator wraps it back to the same value, the specification rejects the run); (5) degenerate keys h = 0, 1, -1, random with s2 = 0. Oracle: refimpl SpecVerify (Algorithm 16 on own SHAKE-256, own codec, own Z_q ring arithmetic); PQClean's verifier must agree with the model wherever the case is expressible in its format (counted). Non-trivial = the specification rejects, or |norm - bound| <= 2; distinct by hash of the triple.",
+    rule: "proptest triples (msg, signature bytes, public-key bytes) that both decoders accept: (1) honest signatures under native keys and under PQClean keys imported through from_bytes, signer randomness from a seeded ChaCha through the SignRng hook; (2) one-step mutations of honest triples (message bit / appended byte, salt bit, one s2 coefficient +-1/+-128 re-encoded, one public-key coefficient, another key, one body bit); (3) forged-key construction: choose s2 (Gaussian sigma 1/30/165, optional coefficient at +-2047, 2048, +-12159, 6144, -6145) and s1 with ||(s1,s2)||^2 = floor(beta^2)+delta exactly, delta in {0,+-1,+-2, small, large}, optional s1 coefficient at +-6144, and set h = (c - s1)/s2; (4) grammar-built malformed bodies under an honest key; forged Falcon-1024 triples whose last coefficient carries 512 extra unary zeros (a 16-bit accumulator wraps it back to the same value, the specification rejects the run) or is a zero encoded as negative zero; (5) degenerate keys h = 0, 1, -1, random with s2 = 0. Oracle: refimpl SpecVerify (Algorithm 16 on own SHAKE-256, own codec, own Z_q ring arithmetic); PQClean's verifier must agree with the model wherever the case is expressible in its format (counted). Non-trivial = the specification rejects, or |norm - bound| <= 2; distinct by hash of the triple.",
     assumptions: &[
         "oracle: refimpl::verify (Algorithm 16), cross-checked against PQClean on every convertible well-formed case of the run; a disagreement between the two oracles is a harness error (exit 2), not a violation",
         "triples that Signature::from_bytes / PublicKey::from_bytes reject are outside the property's quantifier and only counted",
